@@ -47,11 +47,11 @@ def unhexList (s : String) : Option (List String) :=
 
 def handlePath (toks : List String) : String :=
   match toks with
-  | ["place", run, dirs, files] => match unhex run, unhexList dirs, unhexList files with
-      | some run, some dirs, some files => match PathNorm.place run dirs files with
+  | ["place", root, run, dirs, files] => match unhexList root, unhex run, unhexList dirs, unhexList files with
+      | some root, some run, some dirs, some files => match PathNorm.place root run dirs files with
           | .ok p => "ok " ++ "/".intercalate p
           | .error _ => "refused"
-      | _, _, _ => "bad-op"
+      | _, _, _, _ => "bad-op"
   | _ => "bad-op"
 
 end Driver.C09
